@@ -32,7 +32,7 @@ FLOORS = {
               'real:exit_callbacks_seen': 8, 'real:gc_scenarios': 1},
     'thorough': {'real:terminate_scenarios': 20, 'real:signal_scenarios': 35},
 }
-STATES = ['idle', 'python', 'c_sleep', 'except_handler']
+STATES = ['idle', 'python', 'c_sleep', 'except_handler', 'translate']
 TERMSIGS = ['SIGHUP', 'SIGQUIT', 'SIGALRM', 'SIGUSR2', 'SIGXCPU', 'SIGVTALRM', 'SIGTERM']
 
 
@@ -45,7 +45,7 @@ def plan(tier, seed):
             for queued in (0, 6):
                 cells.append(('terminate', st, nproc, queued))
     rng.shuffle(cells)
-    n_t = 16 if tier == 'quick' else len(cells)
+    n_t = 18 if tier == 'quick' else len(cells)
     for (k, st, nproc, queued) in cells[:n_t]:
         specs.append({'lane': 'real', 'sc': 'terminate', 'timeout': 90, 'params': {
             'worker_state': st, 'nproc': nproc, 'queued': queued,
@@ -75,7 +75,7 @@ def plan(tier, seed):
                 sig_cells.append(('operator', st, 2, s))
             sig_cells.append(('terminate_job', 'c_sleep', 2, s))
     rng.shuffle(sig_cells)
-    n_s = 16 if tier == 'quick' else len(sig_cells)
+    n_s = 18 if tier == 'quick' else len(sig_cells)
     for (src, st, nproc, s) in sig_cells[:n_s]:
         specs.append({'lane': 'real', 'sc': 'signal', 'timeout': 90, 'params': {
             'source': src, 'worker_state': st, 'nproc': nproc,
@@ -198,7 +198,7 @@ def check_signal(p, r, obs, ev, attrs, rec):
             rec.violation('job_of_signalled_worker_never_resolved', attrs, params=p, obs=obs)
         elif oc[0] == 'ok':
             rec.violation('signalled_worker_finished_its_task', attrs, outcome=oc, params=p)
-        elif oc[1] == 'SystemExit':
+        elif oc[1] in ('SystemExit', 'Wrapped'):
             rec.violation('job_resolved_with_signals_systemexit', attrs, outcome=oc, params=p)
         elif oc[1] not in legal:
             rec.violation('job_of_signalled_worker_wrong_outcome', attrs, outcome=oc, legal=legal)
